@@ -230,3 +230,11 @@ mod tests {
         assert_eq!(h2, 0x96b98587cacc83d6);
     }
 }
+
+#[cfg(feature = "verif-hooks")]
+impl MurmurHash3X64128 {
+    /// Verification hook: (bytes currently buffered, bytes already absorbed as full blocks).
+    pub fn verif_buf_state(&self) -> (usize, u64) {
+        (self.buf_len, self.total)
+    }
+}
